@@ -20,7 +20,7 @@ theorem C15_half_value (h : Nat) (hh : h < 65536) :
   unfold halfCheck at this
   rw [strict_eq] at this
   simp only [Bool.and_eq_true] at this
-  exact eq_of_beq this.1
+  exact eq_of_beq this.1.2
 
 /-- **Half, round trip**: encoding the decoded value reproduces the original two bytes after `0xF9`
 (any NaN becomes the canonical quiet NaN `7E 00`), for every pattern, every buffer, every size. -/
